@@ -117,12 +117,15 @@ oldest-first sort), pod-level `spec.resources` (C13-10), a CreateFleet answer wi
 for (C18-7: the acquired ones leak) - plus the mirror-pod annotation, which the rejected change used. The node and pod
 fields are drawn from a *third* PRNG stream reserved for fields that neither escalator, the oracle nor the simulated world
 reads, so every history's observable behaviour on the unchanged tree is exactly what it was before they were added.
-**One change is not caught and stays that way: `C14-7`** gives the pod informer a `Transform` that strips annotations
-before caching, so static pods are no longer recognised. It lives in `pkg/k8s/cache.go`, the informer construction that
-every check replaces by harness-owned listers (section 7); the filters and filtered listers are executed, the informer
-store is not. It is kept in `seeded/` with `"result": "MISSED"`.
+The fourth miss, `C14-7`, gives the pod informer a `Transform` that strips annotations before caching, so static pods are no
+longer recognised. It lives in `pkg/k8s/cache.go`, the informer construction that every check replaced by harness-owned
+listers. C14 now also makes one pass through the *real* `NewController`/`NewClient`: the informers list once through a REST
+client served from a store holding 81 000 sampled pod shapes (every selector × every 7th affinity structure × every
+owner list × every static annotation) and five node label maps, and the controller's own informer-backed filtered listers
+must return exactly what the documented rule selects (`informer-lister-mismatch`). That closes part of the gap named in
+section 7: the informer cache construction and `NewClient`'s lister wiring are now executed by a check.
 
-After that one hundred and fifty-five of the one hundred and fifty-six are caught by the quick check of the property they were written against
+After that all one hundred and fifty-six are caught by the quick check of the property they were written against
 (`bin/regress_seeded` re-runs all of them against a scratch copy of /repo and rewrites the `detection` entries).
 
 | Seeded change | Files | What was changed | Needs, to manifest | Quick check of that property |
